@@ -45,6 +45,7 @@ type c31Env struct {
 	assetKey string
 	seq      uint64
 	relayer  *p2p.QuicRelayer
+	accepted chan *p2p.QuicClient
 }
 
 var (
@@ -100,6 +101,21 @@ func c31Setup(st *State) *c31Env {
 	e.assetKey = asset.AssetKey
 	e.relayer, err = p2p.NewQuicRelayer("127.0.0.1:0")
 	must(err)
+	e.accepted = make(chan *p2p.QuicClient, 64)
+	go func() { // one acceptor for the whole run; ops pick their own connection by address
+		for {
+			c, err := e.relayer.Accept(context.Background())
+			if err != nil {
+				time.Sleep(time.Millisecond)
+				continue
+			}
+			select {
+			case e.accepted <- c.(*p2p.QuicClient):
+			default:
+				c.Close("dropped")
+			}
+		}
+	}()
 	c31 = e
 	return e
 }
@@ -491,22 +507,24 @@ func c31Build(e *c31Env, t []string, res *Result) string {
 
 func c31Frame(e *c31Env, t []string, res *Result) string {
 	res.Tags = append(res.Tags, "frame:"+t[0])
-	type acc struct {
-		c   p2p.Client
-		err error
-	}
-	ch := make(chan acc, 1)
-	go func() {
-		c, err := e.relayer.Accept(context.Background())
-		ch <- acc{c, err}
-	}()
 	client, err := p2p.NewQuicConsumer(context.Background(), e.relayer.VerifListenAddr())
 	must(err)
 	defer client.Close("done")
+	port := func(a string) string { return a[strings.LastIndexByte(a, ':')+1:] }
+	local := port(client.VerifLocalAddr()) // the dialer is bound to the wildcard address: pair by port
 	server := func() *p2p.QuicClient {
-		a := <-ch
-		must(a.err)
-		return a.c.(*p2p.QuicClient)
+		deadline := time.After(60 * time.Second)
+		for {
+			select {
+			case s := <-e.accepted:
+				if port(s.RemoteAddr().String()) == local {
+					return s
+				}
+				s.Close("stale")
+			case <-deadline:
+				panic("harness: c31: loopback connection was not accepted")
+			}
+		}
 	}
 	max := p2p.TransportMessageMaxSize
 	switch t[0] {
@@ -627,7 +645,15 @@ func execC31(st *State, line string) Result {
 		res.Tags = append(res.Tags, "srccheck")
 		res.Out = c31SrcCheck(&res)
 	case "send", "recv", "big", "bighdr":
-		res.Out = c31Frame(e, t, &res)
+		for attempt := 0; ; attempt++ {
+			res = Result{}
+			res.Out = c31Frame(e, t, &res)
+			// a write deadline that expires on a loaded machine is not a framing failure: retry
+			if res.PropKey == "C31:frame-roundtrip" && strings.Contains(res.PropDesc, "deadline") && attempt < 3 {
+				continue
+			}
+			break
+		}
 	default:
 		panic("harness: unknown op " + t[0])
 	}
